@@ -24,6 +24,7 @@ LEVEL_TEXT = ('Proof (over R): NCPR(pH) is non-increasing in pH, |NCPR(pH)| <= F
               '(one escape at most), and (over R) every oracle within 1/1000 of the exact normalised charge of ANY sequence with a '
               'titratable residue is such an oracle, and the returned pH neutralises the exact charge to 0.021. Tie: residue lists/signs/pKa/constants/loop '
               'shape from source; the recorded charge calls of real runs are replayed through the Coq loop bit-exactly.')
+LEVEL_NOTE_MINIPY = ' Whole-function semantic ties (source translated to Core/MiniPy terms on every run, proved equal to the model for all inputs): isoelectric_point (every oracle; with pi_never_raises: the translated code never raises).'
 LEVEL_NOTE = 'R theorems use the Coq Reals axioms. 10^x evaluation is float glue; never-raises assumes the float charge is within 1e-3 of the exact one (measured per call).'
 TECHNIQUE = 'Coq proof (monotonicity/bounds over R; loop invariants over Q for all oracles) + oracle-replay correspondence'
 
